@@ -2,6 +2,7 @@
 //! hooks on) on generated cases and writes (a) Coq case files evaluated against the Gallina model
 //! and (b) a JSON-lines file for the exact-rational oracles.
 mod util;
+mod quadric;
 mod c17;
 mod polys;
 mod c19;
@@ -42,6 +43,7 @@ fn main() {
                 "C12" => polys::run_c12(seed, n, out),
                 "C20" => polys::run_c20(seed, n, out),
                 "C17" => c17::run(seed, n, out),
+                "C02quadric" | "C03quadric" | "C13quadric" => quadric::run(prop, seed, n, out),
                 _ => { eprintln!("unknown property {}", prop); std::process::exit(2) }
             }
         }
@@ -54,6 +56,7 @@ fn main() {
             // composite properties: the first replay argument names the part
             "C02" | "C03" | "C13" => match args[3].as_str() {
                 "flat" => flat::replay(&args[4..]),
+                "pquadric" => quadric::replay(&args[4..]),
                 _ => { eprintln!("unknown part"); std::process::exit(2) }
             },
             "C19" => c19::replay(&args[3..]),
